@@ -20,6 +20,8 @@ def main(path):
             return replay_kani(d)
         if d.get("engine") == "verus":
             return replay_verus(d)
+        if d.get("engine") == "kani-ext":
+            return replay_ext(d)
         print("unknown engine in replay file")
         return 2
     except Undecided as u:
@@ -54,6 +56,34 @@ def replay_kani(d):
         print(res["native_output_tail"][-1500:])
         return 2
     return 1 if res["native_failed"] else 0
+
+
+def replay_ext(d):
+    """Downstream harness crate: rebuild it against a fresh copy of /repo's working tree and run the native twin of the
+    harness (plain rustc, concrete inputs); for a "does not compile" obligation re-run the compile differential."""
+    exts = [e for e in K.discover_ext() if e["crate"] == d["crate"]]
+    if not exts:
+        raise Undecided("ext crate %s not found" % d["crate"])
+    cdir = K.prepare_ext_crate(exts[0])
+    if d.get("compile_error"):
+        blame = K.expansion_blame(cdir)
+        print("re-ran the compile differential of %s: %s" % (d["crate"], "the expansion still does not compile" if blame else "builds (or the failure is not attributable to the macro)"))
+        if blame:
+            print(blame["diagnostics"][-1500:])
+        return 1 if blame else 0
+    twin = d.get("native_twin")
+    rc, out, _ = common.run(["cargo", "test", "--offline", "--", twin], cwd=cdir, timeout=1800)
+    ran = ("test result:" in out) and (twin in out)
+    failed = "test result: FAILED" in out
+    print("replayed %s natively: ran=%s failed=%s" % (twin, ran, failed))
+    if not ran:
+        print(out[-1500:])
+        return 2
+    if failed:
+        import re
+        for pm in re.findall(r"panicked at [^\n]*\n[^\n]*", out)[:3]:
+            print("  " + pm.replace("\n", " | "))
+    return 1 if failed else 0
 
 
 def replay_verus(d):
